@@ -16,8 +16,37 @@ struct vp_exc_state __vp_exc;
 #else
 #define VP_MALLOC(n) malloc((n) ? (n) : 1)
 #endif
-void *_Znwm(uint64_t n) { void *p = VP_MALLOC(n); VP_ASSUME(p != 0); return p; }
-void *_Znam(uint64_t n) { void *p = VP_MALLOC(n); VP_ASSUME(p != 0); return p; }
+/* Size-class allocation: CBMC models malloc(n) with a symbolic n as an unbounded array,
+   which costs tens of GB in the array decision procedure.  Every request is therefore
+   served from the smallest class >= n; with a concrete n (the common case) exactly one
+   branch survives symbolic execution.  Consequence: an access past the requested size
+   but inside the class slack (< 50%) is not reported as out of bounds. */
+static void *vp_alloc(uint64_t n)
+{
+  void *p;
+#ifdef __CPROVER__
+  if (n <= 8) p = malloc(8);
+  else if (n <= 16) p = malloc(16);
+  else if (n <= 24) p = malloc(24);
+  else if (n <= 32) p = malloc(32);
+  else if (n <= 48) p = malloc(48);
+  else if (n <= 64) p = malloc(64);
+  else if (n <= 96) p = malloc(96);
+  else if (n <= 128) p = malloc(128);
+  else if (n <= 192) p = malloc(192);
+  else if (n <= 256) p = malloc(256);
+  else if (n <= 512) p = malloc(512);
+  else if (n <= 1024) p = malloc(1024);
+  else if (n <= 4096) p = malloc(4096);
+  else { VP_ASSERT(0, "allocation larger than 4096 bytes (outside the modelled sizes)"); VP_ASSUME(0); p = 0; }
+#else
+  p = malloc(n ? n : 1);
+#endif
+  VP_ASSUME(p != 0);
+  return p;
+}
+void *_Znwm(uint64_t n) { return vp_alloc(n); }
+void *_Znam(uint64_t n) { return vp_alloc(n); }
 void _ZdlPv(void *p) { free(p); }
 void _ZdlPvm(void *p, uint64_t n) { (void)n; free(p); }
 void _ZdaPv(void *p) { free(p); }
@@ -77,12 +106,7 @@ int vp_typeid_for(void *tinfo)
 }
 
 /* ---------------------------------------------------------------- exceptions */
-void *__cxa_allocate_exception(uint64_t n)
-{
-  void *p = VP_MALLOC(n);
-  VP_ASSUME(p != 0);
-  return p;
-}
+void *__cxa_allocate_exception(uint64_t n) { return vp_alloc(n); }
 void __cxa_free_exception(void *p) { free(p); }
 
 void __cxa_throw(void *obj, void *tinfo, void *dtor)
@@ -169,8 +193,7 @@ EXC_VT(g__ZTVSt9bad_alloc, g__ZTISt9bad_alloc);
 
 static char *vp_dup(const char *s, uint64_t n)
 {
-  char *m = (char *)VP_MALLOC(n + 1);
-  VP_ASSUME(m != 0);
+  char *m = (char *)vp_alloc(n + 1);
   for (uint64_t i = 0; i < n; ++i)
     m[i] = s[i];
   m[n] = 0;
